@@ -20,7 +20,11 @@ Supported names
              `merge_incomplete`, the absence of `*_from_none` overrides, `BIND_POLICY`, and the `From`
              conversions between the anchor types.
 
-The translation is token/regex level.  Everything that is not recognised raises `Shape`, which
+The translation is token/regex level for the control structure; the arithmetic of the grid tables,
+of the placement statements and of the `generate_hex_offset` arms is PARSED and evaluated (integer
+polynomials), so that semantics-preserving reformattings (comments, whitespace, operand order,
+folded constants, alternatives or arms in another order, trailing commas) give the same generated
+file.  Everything that is not recognised raises `Shape`, which
 makes `run` return ok=False: the check then reports that the proof no longer talks about the code.
 This file is part of the trusted base (keep it small).
 """
@@ -29,8 +33,9 @@ import re
 import sys
 
 VERIF = os.path.dirname(os.path.dirname(os.path.abspath(__file__)))
-GRID_RS = "/repo/honeycomb-core/src/cmap/builder/grid.rs"
-GRID_OUT = os.path.join(VERIF, "lean", "Honeycomb", "Gen", "GridTables.lean")
+# (scratch testing: GEN_LEAN_GRID_RS / GEN_LEAN_GRID_OUT redirect source and output)
+GRID_RS = os.environ.get("GEN_LEAN_GRID_RS", "/repo/honeycomb-core/src/cmap/builder/grid.rs")
+GRID_OUT = os.environ.get("GEN_LEAN_GRID_OUT", os.path.join(VERIF, "lean", "Honeycomb", "Gen", "GridTables.lean"))
 
 
 class Shape(Exception):
@@ -145,6 +150,157 @@ def entry(s, idents, where):
 
 
 # ---------------------------------------------------------------------------------------------
+# semantic reading of arithmetic expressions: integer polynomials
+# ---------------------------------------------------------------------------------------------
+# An expression over + - * (no / %) is evaluated to a polynomial with integer coefficients over the
+# free identifiers (let-bound names are substituted).  `a - b` is accepted only between
+# subtraction-free operands and only as the outermost operation (possibly inside parentheses / a
+# cast): for such expressions the polynomial determines both the value and the underflow
+# condition `a < b` of the unsigned Rust arithmetic, so equal polynomials = same behaviour.
+
+def p_const(c):
+    return {(): c} if c else {}
+
+
+def p_add(a, b, sign=1):
+    r = dict(a)
+    for m, c in b.items():
+        r[m] = r.get(m, 0) + sign * c
+        if r[m] == 0:
+            del r[m]
+    return r
+
+
+def p_mul(a, b):
+    r = {}
+    for m1, c1 in a.items():
+        for m2, c2 in b.items():
+            m = tuple(sorted(m1 + m2))
+            r[m] = r.get(m, 0) + c1 * c2
+            if r[m] == 0:
+                del r[m]
+    return r
+
+
+def poly(s, env, free, where):
+    """env: let-name -> polynomial; free: allowed free identifiers.  Returns the polynomial."""
+    s = re.sub(r"\s+as\s+[A-Za-z_]\w*", "", s).strip()
+    toks = []
+    pos = 0
+    while pos < len(s):
+        m = TOKEN.match(s, pos)
+        need(m, f"unrecognised token at {s[pos:pos + 20]!r} in {where}")
+        toks.append(m.group(1))
+        pos = m.end()
+    need(toks, f"empty expression in {where}")
+    i = [0]
+
+    def peek():
+        return toks[i[0]] if i[0] < len(toks) else None
+
+    def factor():
+        t = peek()
+        need(t is not None, f"incomplete expression in {where}: {s!r}")
+        i[0] += 1
+        if t == "(":
+            v, sub = expr_()
+            need(peek() == ")", f"missing `)` in {where}: {s!r}")
+            i[0] += 1
+            return v, sub
+        if t.isdigit():
+            return p_const(int(t)), False
+        need(re.fullmatch(r"[A-Za-z_]\w*", t) is not None, f"unexpected token {t!r} in {where}: {s!r}")
+        if t in env:
+            return env[t]
+        need(t in free, f"unknown identifier {t!r} in {where}: {s!r}")
+        return {(t,): 1}, False
+
+    def term():
+        v, sub = factor()
+        while peek() == "*":
+            i[0] += 1
+            w, sub2 = factor()
+            need(not sub and not sub2, f"subtraction under a product in {where}: {s!r}")
+            v = p_mul(v, w)
+        need(peek() not in ("/", "%"), f"`/` and `%` are not interpreted in {where}: {s!r}")
+        return v, sub
+
+    def expr_():
+        v, sub = term()
+        while peek() in ("+", "-"):
+            op = peek()
+            i[0] += 1
+            w, sub2 = term()
+            need(not sub and not sub2, f"nested subtraction in {where}: {s!r} (not interpreted: underflow order)")
+            if op == "+":
+                v = p_add(v, w)
+            else:
+                v, sub = p_add(v, w, -1), True
+        return v, sub
+
+    v, sub = expr_()
+    need(i[0] == len(toks), f"trailing tokens in {where}: {s!r}")
+    return v, sub
+
+
+def cond_nf(a, b, env, free, where):
+    """`a == b` as the polynomial a - b, sign-normalised"""
+    pa, _ = poly(a, env, free, where)
+    pb, _ = poly(b, env, free, where)
+    d = p_add(pa, pb, -1)
+    need(d, f"trivial condition in {where}")
+    lead = d[sorted(d)[-1]]
+    if lead < 0:
+        d = {m: -c for m, c in d.items()}
+    return tuple(sorted(d.items()))
+
+
+def entry_nf(s, env, free, where, lean=False):
+    s = " ".join(s.split())
+    if lean and s.startswith("(") and s.endswith(")") and s[1:].lstrip().startswith("if"):
+        s = s[1:-1].strip()
+    rx = LEAN_COND if lean else COND
+    m = rx.match(s)
+    if m:
+        a, b, e = m.groups()
+        pe, _ = poly(e, env, free, where)
+        return ("if", cond_nf(a, b, env, free, where), tuple(sorted(pe.items())))
+    need(not s.startswith("if"), f"unrecognised conditional in {where}: {s!r}")
+    pe, _ = poly(s, env, free, where)
+    return ("e", tuple(sorted(pe.items())))
+
+
+LEAN_COND = re.compile(r"^if\s+(.+?)\s*=\s*(.+?)\s+then\s+0\s+else\s+(.+)$", re.S)
+
+
+def lets_env(lets_raw, free, where):
+    """[(name, rust_or_lean_expr_text)] in order -> env of polynomials"""
+    env = {}
+    for n, v in lets_raw:
+        env[n] = poly(v, env, free, where)
+    return env
+
+
+def table_nf_from_lean(block, width, nrows, free, where):
+    """re-read a table emitted by `emit_table` (the previously generated file)"""
+    lets_raw = re.findall(r"^\s*let\s+([A-Za-z_]\w*)\s*:=\s*(.+)$", block, flags=re.M)
+    env = lets_env(lets_raw, free, where)
+    i = block.index("[ [")
+    body = block[i:].strip()
+    need(body.startswith("[") and body.endswith("]"), f"{where}: old table not recognised")
+    rows = split_top(body[1:-1])
+    need(len(rows) == nrows, f"{where}: old table has {len(rows)} rows")
+    nf = []
+    for r in rows:
+        r = r.strip()
+        need(r.startswith("[") and r.endswith("]"), f"{where}: old row not recognised")
+        cells = split_top(r[1:-1])
+        need(len(cells) == width, f"{where}: old row width")
+        nf.append([entry_nf(c, env, free, where, lean=True) for c in cells])
+    return nf
+
+
+# ---------------------------------------------------------------------------------------------
 # beta tables
 # ---------------------------------------------------------------------------------------------
 
@@ -184,7 +340,6 @@ def beta_table(src, fname, counts, idxs, width, nrows):
         need(m, f"{where}: loop `(0..{cnt}).flat_map(move |{ix}| ..` not found in the expected nesting order")
         pos = m.end()
     need(len(re.findall(r"\.flat_map\(", flat)) == len(counts), f"{where}: unexpected number of flat_map loops")
-    need(re.search(r"\]\s*\.into_iter\(\)", flat) is not None, f"{where}: table is not consumed by into_iter()")
     # the signature must destructure the counts in axis order
     sig = fn_sig(src, fname)
     if len(counts) == 2:
@@ -192,19 +347,56 @@ def beta_table(src, fname, counts, idxs, width, nrows):
     else:
         need(re.search(r"\[n_x, n_y, n_z\]: \[usize; 3\]", sig), f"{where}: signature is not [n_x, n_y, n_z]: [usize; 3]")
     idents = set(counts) | set(idxs)
+    free = set(idents)
+    lets_raw = raw_lets(body, where)
     lets = parse_lets(body, idents, where)
-    need(lets and lets[0][0] == "d1", f"{where}: first binding is not d1")
-    rows = []
-    for ln in body.split("\n"):
-        t = ln.strip()
-        if t.startswith("[") and (t.endswith("],") or t.endswith("]")) and len(t) > 3:
-            inner = t[1:t.rindex("]")]
-            cells = split_top(inner)
-            need(len(cells) == width, f"{where}: row with {len(cells)} entries, expected {width}: {t!r}")
-            rows.append([entry(c, idents, where) for c in cells])
-    need(len(rows) == nrows, f"{where}: {len(rows)} rows found, expected {nrows}")
-    # nothing else table-like must be left: count '[' that open rows in the table literal
-    return lets, rows
+    # the table literal: everything between the last `let` statement and `.into_iter()`
+    last_let = 0
+    for m in re.finditer(r"\blet\s+(\([^)]*\)|[A-Za-z_]\w*)\s*=\s*(.*?);", body, flags=re.S):
+        last_let = m.end()
+    lit = body[last_let:]
+    k = lit.rfind(".into_iter()")
+    need(k >= 0, f"{where}: table is not consumed by into_iter()")
+    lit = lit[:k].strip()
+    need(lit.startswith("[") and lit.endswith("]"), f"{where}: table literal not recognised")
+    rows_txt = split_top(lit[1:-1])
+    need(len(rows_txt) == nrows, f"{where}: {len(rows_txt)} rows found, expected {nrows}")
+    env = lets_env(lets_raw, free, where)
+    rows, nf = [], []
+    for t in rows_txt:
+        t = t.strip()
+        need(t.startswith("[") and t.endswith("]"), f"{where}: row not recognised: {t!r}")
+        cells = split_top(t[1:-1])
+        need(len(cells) == width, f"{where}: row with {len(cells)} entries, expected {width}: {t!r}")
+        rows.append([entry(c, idents, where) for c in cells])
+        nf.append([entry_nf(c, env, free, where) for c in cells])
+    return lets, rows, nf
+
+
+def raw_lets(body, where):
+    """the let statements as [(name, rust_text)], tuple lets expanded (simultaneous binding)"""
+    out = []
+    for m in re.finditer(r"\blet\s+(\([^)]*\)|[A-Za-z_]\w*)\s*=\s*(.*?);", body, flags=re.S):
+        lhs, rhs = m.group(1), m.group(2).strip()
+        if lhs.startswith("("):
+            names = split_top(lhs[1:-1])
+            need(rhs.startswith("(") and rhs.endswith(")"), f"tuple let without tuple value in {where}")
+            vals = split_top(rhs[1:-1])
+            need(len(names) == len(vals), f"tuple let arity mismatch in {where}")
+        else:
+            names, vals = [lhs], [rhs]
+        seen = {n for n, _ in out}
+        if lhs.startswith("("):
+            for v in vals:   # simultaneous binding: no component may use a name bound by the same tuple
+                for other in names:
+                    need(re.search(r"\b" + re.escape(other.strip()) + r"\b", v) is None,
+                         f"tuple let component uses a name of the same tuple in {where}")
+        for n, v in zip(names, vals):
+            n = n.strip()
+            need(re.fullmatch(r"[A-Za-z_]\w*", n) is not None, f"bad let name {n!r} in {where}")
+            need(n not in seen, f"rebinding of {n} in {where}")
+            out.append((n, v))
+    return out
 
 
 def emit_table(name, doc, counts, idxs, lets, rows):
@@ -248,11 +440,41 @@ LOOP_KINDS = [
     (3, r"\{ let \(x_idx, y_idx\) = \(n_square_x - 1, n_square_y - 1\);"),
 ]
 
-PLACE = re.compile(
-    r"let vertex_id = map\.vertex_id\(\((\d+) \+ x_idx \* (\d+) \+ y_idx \* (\d+) \* n_square_x\) as DartIdType\);\s*"
-    r"map\.force_write_vertex\(\s*vertex_id,\s*origin\s*\+\s*Vector2\(\s*"
-    r"T::from\(x_idx( \+ 1)?\)\.unwrap\(\) \* len_per_x,\s*"
-    r"T::from\(y_idx( \+ 1)?\)\.unwrap\(\) \* len_per_y,?\s*\),?\s*\);")
+FROM = r"T::from\((.+)\)\.unwrap\(\)"
+
+
+def scaled(txt, var, length, where):
+    """`T::from(E).unwrap() * L` or `L * T::from(E).unwrap()` with E = var or var + 1 (any way of
+    writing it): returns 0 or 1"""
+    t = " ".join(txt.split())
+    m = re.fullmatch(FROM + r"\s*\*\s*([A-Za-z_]\w*)", t) or None
+    if m:
+        e, l = m.group(1), m.group(2)
+    else:
+        m = re.fullmatch(r"([A-Za-z_]\w*)\s*\*\s*" + FROM, t)
+        need(m, f"{where}: component {t!r} is not `T::from(e).unwrap() * length`")
+        l, e = m.group(1), m.group(2)
+    need(l == length, f"{where}: component {t!r} is scaled by {l}, expected {length}")
+    pe, sub = poly(e, {}, {var}, where)
+    need(not sub, f"{where}: subtraction in {t!r}")
+    for off in (0, 1):
+        if pe == p_add({(var,): 1}, p_const(off)):
+            return off
+    raise Shape(f"{where}: component {t!r} is not {var} or {var} + 1")
+
+
+def paren_arg(body, start, where):
+    """body[start] == '(' : returns (text inside the matching parentheses, index after ')')"""
+    need(body[start] == "(", f"{where}: `(` expected")
+    depth = 0
+    for j in range(start, len(body)):
+        if body[j] == "(":
+            depth += 1
+        elif body[j] == ")":
+            depth -= 1
+            if depth == 0:
+                return body[start + 1:j], j + 1
+    raise Shape(f"{where}: unbalanced parentheses")
 
 
 def placement(src, fname, k):
@@ -260,17 +482,37 @@ def placement(src, fname, k):
     blocks = []
     pos = 0
     for kind, rx in LOOP_KINDS:
+        where = f"{fname}: placement block {kind}"
         m = re.compile(rx).search(body, pos)
-        need(m, f"{fname}: vertex placement block {kind} (loop header) not recognised")
-        p = PLACE.search(body, m.end())
-        need(p and body[m.end():p.start()].strip() == "", f"{fname}: placement statement of block {kind} not recognised")
-        local, s1, s2 = int(p.group(1)), int(p.group(2)), int(p.group(3))
-        need(s1 == k and s2 == k, f"{fname}: placement stride {s1}/{s2} differs from darts per cell {k}")
-        need(1 <= local <= k, f"{fname}: placement local dart {local} out of range")
-        blocks.append((kind, local, s1, 1 if p.group(4) else 0, 1 if p.group(5) else 0))
-        pos = p.end()
-    need(len(PLACE.findall(body)) == 4, f"{fname}: expected exactly four vertex placement statements")
+        need(m, f"{where}: loop header not recognised")
+        h = re.compile(r"\s*let vertex_id = map\.vertex_id").match(body, m.end())
+        need(h, f"{where}: `let vertex_id = map.vertex_id(..)` expected first")
+        arg, after = paren_arg(body, h.end(), where)
+        # dart expression: local + K*x_idx + K*n_square_x*y_idx
+        pd, sub = poly(arg, {}, {"x_idx", "y_idx", "n_square_x"}, where)
+        need(not sub, f"{where}: subtraction in the dart expression")
+        local = pd.get((), 0)
+        want = p_add(p_add(p_const(local), {("x_idx",): k}), {("n_square_x", "y_idx"): k})
+        need(pd == want, f"{where}: dart expression {arg!r} is not local + {k}*x_idx + {k}*n_square_x*y_idx")
+        need(1 <= local <= k, f"{where}: local dart {local} out of range")
+        w = re.compile(r"\s*;\s*map\.force_write_vertex").match(body, after)
+        need(w, f"{where}: `map.force_write_vertex(..)` expected after the vertex id")
+        warg, after2 = paren_arg(body, w.end(), where)
+        need(re.compile(r"\s*;").match(body, after2), f"{where}: `;` expected after force_write_vertex(..)")
+        parts = split_top(warg)
+        need(len(parts) == 2 and parts[0] == "vertex_id", f"{where}: force_write_vertex arguments not recognised")
+        v = re.fullmatch(r"origin\s*\+\s*Vector2\s*(\(.*\))", parts[1].strip())
+        need(v, f"{where}: written value is not `origin + Vector2(..)`")
+        comps, endc = paren_arg(v.group(1), 0, where)
+        need(endc == len(v.group(1)), f"{where}: trailing text after Vector2(..)")
+        cs = split_top(comps)
+        need(len(cs) == 2, f"{where}: Vector2 with {len(cs)} components")
+        dx = scaled(cs[0], "x_idx", "len_per_x", where)
+        dy = scaled(cs[1], "y_idx", "len_per_y", where)
+        blocks.append((kind, local, k, dx, dy))
+        pos = after2
     need(len(re.findall(r"force_write_vertex", body)) == 4, f"{fname}: unexpected extra vertex writes")
+    need(len(re.findall(r"map\.vertex_id", body)) == 4, f"{fname}: unexpected extra vertex_id calls")
     return blocks
 
 
@@ -289,22 +531,54 @@ def hex_offset(src):
     lets = parse_lets(head, idents, fname)
     names = [n for n, _ in lets]
     need(names == ["d", "dm", "dmm", "dmmm", "p", "x", "y", "z"], f"{fname}: index decoding bindings changed: {names}")
-    need(re.search(r"match\s+p\s*\{", body), f"{fname}: `match p` not found")
-    mbody = " ".join(body[body.index("match"):].split())
-    arm = re.compile(
-        r"((?:\d+\s*\|\s*)*\d+)\s*=>\s*Vector3\(\s*"
-        r"T::from\(x( \+ 1)?\)\.unwrap\(\) \* lx,\s*"
-        r"T::from\(y( \+ 1)?\)\.unwrap\(\) \* ly,\s*"
-        r"T::from\(z( \+ 1)?\)\.unwrap\(\) \* lz,?\s*\),")
-    arms = []
-    for m in arm.finditer(mbody):
-        ps = [int(t) for t in re.split(r"\s*\|\s*", m.group(1))]
-        arms.append((ps, tuple(1 if g else 0 for g in m.groups()[1:])))
-    need(len(arms) == len(re.findall(r"=>\s*Vector3", mbody)), f"{fname}: an arm was not recognised")
-    need(len(re.findall(r"=>", mbody)) == len(arms) + 1 and re.search(r"_\s*=>\s*unreachable!\(\)", mbody),
-         f"{fname}: arms other than `.. => Vector3(..)` and `_ => unreachable!()`")
-    allp = sorted(p for ps, _ in arms for p in ps)
+    mm = re.search(r"match\s+p\s*\{", body)
+    need(mm, f"{fname}: `match p` not found")
+    # the match body: up to its closing brace
+    depth, k0 = 0, mm.end() - 1
+    end = None
+    for j2 in range(k0, len(body)):
+        if body[j2] == "{":
+            depth += 1
+        elif body[j2] == "}":
+            depth -= 1
+            if depth == 0:
+                end = j2
+                break
+    need(end is not None, f"{fname}: unbalanced match")
+    need(body[end + 1:].strip() == "", f"{fname}: code after the match")
+    arms_txt = split_top(body[mm.end():end])
+    arms, wild = [], 0
+    for a in arms_txt:
+        need("=>" in a, f"{fname}: arm without `=>`: {a!r}")
+        pats, rhs = a.split("=>", 1)
+        pats, rhs = pats.strip(), " ".join(rhs.split())
+        if pats == "_":
+            need(re.fullmatch(r"unreachable!\(\)", rhs), f"{fname}: wildcard arm is not unreachable!()")
+            wild += 1
+            continue
+        ps = []
+        for t in pats.split("|"):
+            t = t.strip()
+            need(t.isdigit(), f"{fname}: pattern {t!r} is not a literal")
+            ps.append(int(t))
+        v = re.fullmatch(r"Vector3\s*(\(.*\))", rhs)
+        need(v, f"{fname}: arm value is not Vector3(..): {rhs!r}")
+        comps, endc = paren_arg(v.group(1), 0, fname)
+        need(endc == len(v.group(1)), f"{fname}: trailing text after Vector3(..)")
+        cs = split_top(comps)
+        need(len(cs) == 3, f"{fname}: Vector3 with {len(cs)} components")
+        off = (scaled(cs[0], "x", "lx", fname), scaled(cs[1], "y", "ly", fname), scaled(cs[2], "z", "lz", fname))
+        arms.append((ps, off))
+    need(wild == 1, f"{fname}: exactly one `_ => unreachable!()` arm expected")
+    allp = [p_ for ps, _ in arms for p_ in ps]
     need(len(allp) == len(set(allp)), f"{fname}: overlapping match patterns")
+    # canonical form: arms with the same value merged, patterns sorted by dart index (p = 0 is the
+    # last dart of a cell: sorted as 24), arms sorted by their first pattern
+    key = lambda p_: p_ if p_ else 24
+    merged = {}
+    for ps, off in arms:
+        merged.setdefault(off, []).extend(ps)
+    arms = sorted(((sorted(ps, key=key), off) for off, ps in merged.items()), key=lambda a: key(a[0][0]))
     return lets, arms
 
 
@@ -315,9 +589,9 @@ def hex_offset(src):
 def gen_grid():
     raw = open(GRID_RS).read()
     src = strip_comments(raw)
-    sq_lets, sq_rows = beta_table(src, "generate_square_beta_values", ["n_x", "n_y"], ["ix", "iy"], 3, 4)
-    tr_lets, tr_rows = beta_table(src, "generate_tris_beta_values", ["n_x", "n_y"], ["ix", "iy"], 3, 6)
-    hx_lets, hx_rows = beta_table(src, "generate_hex_beta_values", ["n_x", "n_y", "n_z"], ["ix", "iy", "iz"], 4, 24)
+    sq_lets, sq_rows, sq_nf = beta_table(src, "generate_square_beta_values", ["n_x", "n_y"], ["ix", "iy"], 3, 4)
+    tr_lets, tr_rows, tr_nf = beta_table(src, "generate_tris_beta_values", ["n_x", "n_y"], ["ix", "iy"], 3, 6)
+    hx_lets, hx_rows, hx_nf = beta_table(src, "generate_hex_beta_values", ["n_x", "n_y", "n_z"], ["ix", "iy", "iz"], 4, 24)
     ksq = darts_per_cell(src, "build_2d_grid", r"new_with_undefined_attributes\((\d+) \* n_square_x \* n_square_y, manager\)")
     ktr = darts_per_cell(src, "build_2d_splitgrid", r"new_with_undefined_attributes\((\d+) \* n_square_x \* n_square_y, manager\)")
     khx = darts_per_cell(src, "build_3d_grid", r"let n_darts = (\d+) \* n_square_x \* n_square_y \* n_square_z;")
@@ -343,6 +617,26 @@ def gen_grid():
     tr_place = placement(src, "build_2d_splitgrid", ktr)
     off_lets, arms = hex_offset(src)
 
+    previous = open(GRID_OUT).read() if os.path.exists(GRID_OUT) else None
+    kept = []
+
+    def table(name, doc, counts, idxs, lets, rows, nf, width, nrows):
+        """the Lean text of a table.  The default is the textual mirror of the source; when the
+        previously generated table is SEMANTICALLY equal to the source (same integer polynomial and
+        same boundary condition in every entry) its text is kept, so that a reformatting of the Rust
+        expressions (operands swapped, constants folded, bindings renamed ..) does not change the
+        generated file.  Any real change makes the comparison fail and the mirror is emitted."""
+        if previous:
+            m = re.search(r"/-- [^\n]*\ndef " + name + r" [^\n]*\n.*?\]\s\]\n", previous, flags=re.S)
+            if m:
+                try:
+                    if table_nf_from_lean(m.group(0), width, nrows, set(counts) | set(idxs), name) == nf:
+                        kept.append(name)
+                        return m.group(0).rstrip("\n")
+                except Shape:
+                    pass
+        return emit_table(name, doc, counts, idxs, lets, rows)
+
     out = []
     out.append("/-\n  GENERATED by /verif/tools/gen_lean.py from\n  /repo/honeycomb-core/src/cmap/builder/grid.rs — DO NOT EDIT.\n"
                "  Regenerated by tools/check.py before every build; a change of the Rust tables changes this\n"
@@ -352,12 +646,12 @@ def gen_grid():
     out.append("namespace HC.Gen\n")
     out.append(f"/-- darts per cell of `build_2d_grid` / `build_2d_splitgrid` / `build_3d_grid` -/")
     out.append(f"def squareK : Nat := {ksq}\ndef trisK : Nat := {ktr}\ndef hexK : Nat := {khx}\n")
-    out.append(emit_table("squareRows", "`generate_square_beta_values`: rows `[β0, β1, β2]` of the darts `d1 ..` of cell `(ix, iy)`",
-                          ["n_x", "n_y"], ["ix", "iy"], sq_lets, sq_rows) + "\n")
-    out.append(emit_table("trisRows", "`generate_tris_beta_values`: rows `[β0, β1, β2]` of the darts `d1 ..` of cell `(ix, iy)`",
-                          ["n_x", "n_y"], ["ix", "iy"], tr_lets, tr_rows) + "\n")
-    out.append(emit_table("hexRows", "`generate_hex_beta_values`: rows `[β0, β1, β2, β3]` of the darts `d1 ..` of cell `(ix, iy, iz)`",
-                          ["n_x", "n_y", "n_z"], ["ix", "iy", "iz"], hx_lets, hx_rows) + "\n")
+    out.append(table("squareRows", "`generate_square_beta_values`: rows `[β0, β1, β2]` of the darts `d1 ..` of cell `(ix, iy)`",
+                     ["n_x", "n_y"], ["ix", "iy"], sq_lets, sq_rows, sq_nf, 3, 4) + "\n")
+    out.append(table("trisRows", "`generate_tris_beta_values`: rows `[β0, β1, β2]` of the darts `d1 ..` of cell `(ix, iy)`",
+                     ["n_x", "n_y"], ["ix", "iy"], tr_lets, tr_rows, tr_nf, 3, 6) + "\n")
+    out.append(table("hexRows", "`generate_hex_beta_values`: rows `[β0, β1, β2, β3]` of the darts `d1 ..` of cell `(ix, iy, iz)`",
+                     ["n_x", "n_y", "n_z"], ["ix", "iy", "iz"], hx_lets, hx_rows, hx_nf, 4, 24) + "\n")
 
     def place_txt(name, doc, blocks):
         rows = ", ".join(f"({a}, {b}, {c}, {d}, {e})" for a, b, c, d, e in blocks)
@@ -390,7 +684,8 @@ def gen_grid():
         open(GRID_OUT, "w").write(text)
     return f"grid: {len(sq_rows)}+{len(tr_rows)}+{len(hx_rows)} table rows, {len(arms)} offset arms, " \
            f"{len(sq_place)}+{len(tr_place)} placement blocks -> {os.path.relpath(GRID_OUT, VERIF)}" \
-           + (" (unchanged)" if old == text else " (rewritten)")
+           + (" (unchanged)" if old == text else " (rewritten)") \
+           + (f"; tables kept by semantic equality: {', '.join(kept)}" if kept else "; tables: textual mirror of the source")
 
 
 # ---------------------------------------------------------------------------------------------
